@@ -50,7 +50,11 @@ type c01Gen struct {
 func (g *c01Gen) n(lo, hi int, l string) int { return rapid.IntRange(lo, hi).Draw(g.t, l) }
 
 func (g *c01Gen) valueRecipe() mj.Recipe {
-	switch g.n(0, 13, "valkind") {
+	switch g.n(0, 15, "valkind") {
+	case 14:
+		return mj.Recipe{T: "level", I: int64(g.n(0, 9, "level"))}
+	case 15:
+		return mj.Recipe{T: "code", I: int64(g.n(0, 9, "code"))}
 	case 0, 1, 2, 3, 4:
 		return mj.RStr(genSpecialString(g.t, "sval"))
 	case 5:
@@ -206,7 +210,9 @@ func (g *c01Gen) wrap(kind string, body []*mj.Node) []*mj.Node {
 	case "try":
 		mid = &mj.Node{K: "try", Body: body}
 	case "catch":
-		mid = &mj.Node{K: "try", Body: []*mj.Node{mj.Text("LOST"), {K: "fail", Src: "noSuchVariable", Class: "unknown-identifier"}}, HasCatch: true, Catch: body}
+		// the failing action may be a SafeWriter whose argument fails: nothing of it may stick
+		src := []string{"noSuchVariable", "raw: noSuchVariable", `safeHtml: "<a>", noSuchVariable`, `unsafe: "<b>" + noSuchVariable`}[g.n(0, 3, "catchfail")]
+		mid = &mj.Node{K: "try", Body: []*mj.Node{mj.Text("LOST"), {K: "fail", Src: src, Class: "unknown-identifier"}}, HasCatch: true, Catch: body}
 	case "exec":
 		// the executed file renders values too, but none of it may reach the output
 		path := g.newFile(body)
@@ -262,7 +268,7 @@ func judgeC01(c c01Case) (v core.Verdict) {
 	}
 	v.Label("escaper:" + c.Prog.Escaper)
 	for _, r := range c.Prog.Vars {
-		if strings.ContainsAny(r.S, "<>&'\"") {
+		if strings.ContainsAny(r.S, "<>&'\"") || r.T == "level" || r.T == "code" {
 			special = true
 		}
 		if r.T == "longstring" {
